@@ -20,10 +20,29 @@ import (
 )
 
 const (
-	repo      = "/repo"
 	verifDir  = "/verif"
 	modPrefix = "github.com/bfenetworks/bfe/"
 )
+
+// repo is the tree under check: /repo, or a scratch worktree when VERIF_REPO is set (development,
+// seeded-change experiments). Registered commands never set VERIF_REPO.
+var repo = func() string {
+	if r := os.Getenv("VERIF_REPO"); r != "" {
+		return r
+	}
+	return "/repo"
+}()
+
+// loadRegistry reads /verif/harness/registry/<prop>.json.
+func loadRegistry(prop string) (propReg, error) {
+	var pr propReg
+	b, err := os.ReadFile(filepath.Join(verifDir, "harness", "registry", prop+".json"))
+	if err != nil {
+		return pr, err
+	}
+	err = json.Unmarshal(b, &pr)
+	return pr, err
+}
 
 type tierCfg struct {
 	Params   map[string]int `json:"params"`
@@ -115,17 +134,9 @@ func main() {
 	}
 	t0 := time.Now()
 
-	var reg map[string]propReg
-	rb, err := os.ReadFile(filepath.Join(verifDir, "harness", "registry.json"))
+	pr, err := loadRegistry(prop)
 	if err != nil {
-		fatal(2, "ERROR registry: %v", err)
-	}
-	if err := json.Unmarshal(rb, &reg); err != nil {
-		fatal(2, "ERROR registry: %v", err)
-	}
-	pr, ok := reg[prop]
-	if !ok {
-		fatal(2, "ERROR unknown property %s", prop)
+		fatal(2, "ERROR registry for %s: %v", prop, err)
 	}
 	var kfs []knownFinding
 	if kb, err := os.ReadFile(filepath.Join(verifDir, "known_findings.json")); err == nil {
@@ -170,7 +181,7 @@ func main() {
 	ev := newEvidence(prop, *tier, seed)
 	exit := 0
 	var violLines, knownLines, inconcl []string
-	replayDir := filepath.Join(verifDir, "evidence", "replay")
+	replayDir := filepath.Join(evidenceDir(), "replay")
 	os.MkdirAll(replayDir, 0o755)
 	// remove stale replays of this property
 	if old, _ := filepath.Glob(filepath.Join(replayDir, prop+"-*.json")); old != nil {
@@ -311,7 +322,7 @@ func main() {
 
 	ev.Inconclusive = inconcl
 	ev.finish(pr, time.Since(t0))
-	if err := ev.write(filepath.Join(verifDir, "evidence", prop+".json")); err != nil {
+	if err := ev.write(filepath.Join(evidenceDir(), prop+".json")); err != nil {
 		fatal(2, "ERROR writing evidence: %v", err)
 	}
 	for _, l := range dedupe(knownLines) {
@@ -511,12 +522,9 @@ func doReplay(prop, path string) int {
 		fmt.Println("ERROR", err)
 		return 2
 	}
-	var reg map[string]propReg
-	rb, _ := os.ReadFile(filepath.Join(verifDir, "harness", "registry.json"))
-	json.Unmarshal(rb, &reg)
-	pr, ok := reg[prop]
-	if !ok {
-		fmt.Println("ERROR unknown property", prop)
+	pr, err := loadRegistry(prop)
+	if err != nil {
+		fmt.Println("ERROR registry", prop, err)
 		return 2
 	}
 	var h harnessReg
@@ -666,4 +674,12 @@ func (e *evidence) write(path string) error {
 		return err
 	}
 	return os.WriteFile(path, b, 0o644)
+}
+
+// evidenceDir is /verif/evidence unless VERIF_EVIDENCE_DIR redirects it (scratch experiments).
+func evidenceDir() string {
+	if d := os.Getenv("VERIF_EVIDENCE_DIR"); d != "" {
+		return d
+	}
+	return filepath.Join(verifDir, "evidence")
 }
